@@ -128,6 +128,14 @@ var props = map[string]*propSpec{
 		QuickBudget:    45 * time.Second,
 		ThoroughBudget: 12 * time.Minute,
 	},
+	"C18": {
+		Level: "exploration",
+		Rule: "one run = a tunnel (forward, reverse or nested; with or without its own opening deadline) x 1-4 RPCs each carrying a grpc-timeout header drawn from 16 classes (1-8 digits, leading zeros, 99999999, more than eight digits, values around and beyond int64 overflow for every unit, signs, spaces, empty / missing parts, unknown units, non-ASCII or non-decimal digits, repeated headers); the handler records ctx.Deadline() and virtual time at its start and, for durations up to 40 days, waits for its context to end; compared with an independent implementation of the gRPC wire specification; " +
+			"non-trivial = at least one header was compared; distinct = distinct (class, header value) pairs are many; counted as distinct schedule digests. The quantifier of C18 is over inputs only: what the simulator contributes is the virtual clock that makes 'exactly' observable and lets hour- and day-scale expiries fire; there is no schedule search of substance here",
+		Families:       []famPlan{{Family: "timeout", Weight: 1}},
+		QuickBudget:    30 * time.Second,
+		ThoroughBudget: 8 * time.Minute,
+	},
 	"C14": {
 		Level: "exploration",
 		Rule: "every run ends with a drain to final quiescence (table sizes probed through the verif accessors) and a full shutdown (every tunnel ended, every context cancelled, all timers fired) after which any goroutine started by the library that is still alive is a leak; " +
